@@ -201,6 +201,17 @@ pub fn build(tier: Tier) -> Check<'static> {
             through_all(acc, &sp.get(i), "wide token soup", true);
         }));
     }
+    {
+        // macro bodies with multi-byte characters, slashes and quotes, defined and expanded
+        let pieces: [&'static str; 10] = ["é", "日本", "/", "//", "x", " ", "\"", "`\"", "\\\n", "*"];
+        let sp = soup::strings(&pieces, 0, tier.pick(4, 5), &[""]);
+        c.parts.push(Part::new("macro-body-soup", sp.len() * 2, "`define M <body> / `define F(x) <body> with every body of <= 4 (quick) / 5 (thorough) pieces of {é, 日本, /, //, x, blank, \", `\", continuation, *}, then used", move |i, acc| {
+            let body = sp.get(i / 2);
+            let src = if i % 2 == 0 { format!("`define M {}\na `M b\n", body) } else { format!("`define F(x) {}\na `F(é/2) b\n", body) };
+            acc.nontrivial += 1;
+            through_all(acc, &src, "macro body soup", false);
+        }));
+    }
     let seeds = Arc::new(corpus::load());
     {
         // intact seeds and reference-grammar sentences: reach into every production for the tree accessors
